@@ -16,10 +16,12 @@ package bt
 //@   fresh result
 //@   ensures[C01.varint_bytes_len] (= (len result) (spec.vlen v))
 //@   opt bytes-bound 9
+//@   opt bytes-le-defs 1
 //@   ensures[C01.varint_bytes] (= (bytes result) (spec.vi v))
 
 //@ func bt.LittleEndianBytes
 //@   bytes token
+//@   opt bytes-le-defs 1
 //@   requires (>= l 4)
 //@   fresh result
 //@   ensures[C01.le_bytes] (and (= (len result) l) (= (bytes result) (bcat (le32 v) (bzeros (- l 4)))))
@@ -386,3 +388,12 @@ package bt
 //@   requires (not (nil? (. o LockingScript)))
 //@   fresh result
 //@   ensures[C02.output_sighash_bytes] (= (bytes result) (old (spec.out_bytes o)))
+//@ func bt.(*Tx).toBytesHelper
+//@   bytes token
+//@   requires (spec.out_scripts_nonnil tx) (spec.inputs_nonnil tx)
+//@   fresh result
+//@   ensures[C01.tx_bytes] (= (bytes result) (old (spec.tx_ser tx index lockingScript extended)))
+//@   loop 0 invariant (fresh h)
+//@   loop 1 invariant (fresh h)
+//@   loop 0 invariant (= (bytes h) (bcat (le32 (old (. tx Version))) (bcat (ite extended (spec.ext_marker) beps) (bcat (spec.vi (old (len (. tx Inputs)))) (old (spec.ser_ins tx index lockingScript extended (+ rangeindex 1)))))))
+//@   loop 1 invariant (= (bytes h) (bcat (le32 (old (. tx Version))) (bcat (ite extended (spec.ext_marker) beps) (bcat (spec.vi (old (len (. tx Inputs)))) (bcat (old (spec.ser_ins tx index lockingScript extended (len (. tx Inputs)))) (bcat (spec.vi (old (len (. tx Outputs)))) (old (spec.ser_outs tx (+ rangeindex 1)))))))))
